@@ -253,7 +253,8 @@ def r03_7(prog, rep):
             except Exception:
                 continue
             if any(T.contains(tm, raw_req) for pth in gps for tm in pth.all_terms()):
-                readers[q] = gps
+                # (with the private helpers it calls read in place: the evaluated hints / the peeling of Annotated may live there)
+                readers[q] = P.spaths(prog, g)
     has_req = lambda x: raw_req(x) or (x[0] == "call" and T.refname(x[1]) in readers)  # noqa: E731
     enforced = False
     sites = []
